@@ -46,7 +46,7 @@ type Report struct {
 }
 
 func NewReport(prop string) *Report {
-	return &Report{Property: prop, RuleCounts: map[string]int{}, Floors: map[string]int{}, Extra: map[string]interface{}{}}
+	return &Report{Property: prop, RuleCounts: map[string]int{}, Floors: map[string]int{}, Extra: map[string]interface{}{}, Assumptions: []string{}, Anchors: []string{}}
 }
 
 // Add records an obligation.
